@@ -297,7 +297,8 @@ fn actors() -> RunResult {
         let (errs, recs, plans, steps) = (errs.clone(), recs.clone(), plans.clone(), steps.clone());
         move || {
             let mut pb = ProactorBuilder::new();
-            pb.capacity(capacity).driver_type(compio_driver::DriverType::IoUring);
+            pb.capacity(capacity);
+            draw_driver(&mut pb);
             let rt = compio_runtime::Runtime::builder().with_proactor(pb.clone()).build().expect("runtime");
             rt.block_on(async {
                 let dispatcher = compio_dispatcher::Dispatcher::builder().worker_threads(NonZeroUsize::new(workers).unwrap()).proactor_builder(pb.clone()).build().expect("dispatcher");
@@ -678,7 +679,8 @@ fn groups() -> RunResult {
         let (errs, recs, steps, sup_log, caps) = (errs.clone(), recs.clone(), steps.clone(), sup_log.clone(), caps.clone());
         move || {
             let mut pb = ProactorBuilder::new();
-            pb.capacity(capacity).driver_type(compio_driver::DriverType::IoUring);
+            pb.capacity(capacity);
+            draw_driver(&mut pb);
             let rt = compio_runtime::Runtime::builder().with_proactor(pb.clone()).build().expect("runtime");
             rt.block_on(async {
                 let dispatcher = compio_dispatcher::Dispatcher::builder().worker_threads(NonZeroUsize::new(workers).unwrap()).proactor_builder(pb.clone()).build().expect("dispatcher");
